@@ -50,9 +50,20 @@ pub struct Log {
 
 thread_local! {
     static LOG: RefCell<Log> = RefCell::new(Log::default());
+    static MUTED: std::cell::Cell<bool> = const { std::cell::Cell::new(false) };
+}
+
+/// While muted, seam calls are served but leave no trace in the log (used for a prelude that
+/// is not part of the execution under observation).
+pub fn mute(on: bool) {
+    MUTED.with(|m| m.set(on));
+}
+pub fn muted() -> bool {
+    MUTED.with(|m| m.get())
 }
 
 pub fn reset(keep: bool) {
+    mute(false);
     LOG.with(|l| {
         *l.borrow_mut() = Log {
             keep,
@@ -68,6 +79,9 @@ fn mix(h: &mut u64, v: u64) {
 }
 
 pub fn push(ev: Ev) {
+    if muted() {
+        return;
+    }
     LOG.with(|l| {
         let mut l = l.borrow_mut();
         match &ev {
